@@ -29,7 +29,9 @@ type frag struct {
 
 // payload byte at offset i of datagram key: key- and offset-coded, so mixing
 // two datagrams or misplacing a fragment shows in the content.
-func pbyte(key uint32, i int) byte { return byte(uint32(i)*2654435761>>24) ^ byte(key*40503>>8) ^ byte(i>>3) }
+func pbyte(key uint32, i int) byte {
+	return byte(uint32(i)*2654435761>>24) ^ byte(key*40503>>8) ^ byte(i>>3)
+}
 
 func original(key uint32, size int) []byte {
 	b := make([]byte, size)
@@ -474,6 +476,97 @@ func concurrent() {
 	}
 }
 
+// concurrentStream: a stream of datagrams with fresh keys, every fragment sent once by one
+// goroutine and many of them a second time by another, all goroutines walking the stream
+// in order - so duplicates of a datagram that has just completed race with the first
+// fragments of the next ones. Whatever is handed up must be exactly one original datagram;
+// every datagram (all of whose fragments arrived) is handed up at least once.
+func concurrentStream() {
+	n := fw.N(300, 20000)
+	for i := 0; i < n; i++ {
+		r := fw.NewRand(run.Seed, "C08", "stream", i)
+		f := fragmentation.NewFragmentation(fragmentation.HighFragThreshold, fragmentation.LowFragThreshold, fragmentation.DefaultReassembleTimeout)
+		nd := 8 + r.Intn(24)
+		g := 3 + r.Intn(6)
+		sizes := map[uint32]int{}
+		buckets := make([][]frag, g)
+		for d := 0; d < nd; d++ {
+			key := uint32(2000 + d)
+			size := 8 + r.Intn(600)
+			sizes[key] = size
+			nblocks := (size + 7) / 8
+			for a := 0; a < nblocks; {
+				b := a + 1 + r.Intn(6)
+				if b > nblocks {
+					b = nblocks
+				}
+				e := b * 8
+				if e > size {
+					e = size
+				}
+				fr := frag{Key: key, Off: a * 8, End: e, More: e != size}
+				c := r.Intn(g)
+				buckets[c] = append(buckets[c], fr)
+				if r.Bool() {
+					c2 := (c + 1 + r.Intn(g-1)) % g
+					buckets[c2] = append(buckets[c2], fr)
+				}
+				a = b
+			}
+		}
+		var mu sync.Mutex
+		delivered := map[uint32]int{}
+		var bad string
+		var wg sync.WaitGroup
+		start := make(chan struct{})
+		for c := 0; c < g; c++ {
+			c := c
+			wg.Add(1)
+			go func() {
+				defer wg.Done()
+				defer func() {
+					if r := recover(); r != nil {
+						mu.Lock()
+						bad = fmt.Sprintf("panic: %v", r)
+						mu.Unlock()
+					}
+				}()
+				<-start
+				for k, fr := range buckets[c] {
+					vv, done := f.Process(fr.Key, uint16(fr.Off), uint16(fr.End-1), fr.More, fragView(fr, 1+c%3))
+					if done {
+						got := vv.ToView()
+						mu.Lock()
+						delivered[fr.Key]++
+						if !bytes.Equal(got, cachedOriginal(fr.Key, 65536)[:sizes[fr.Key]]) && bad == "" {
+							bad = fmt.Sprintf("datagram %d handed up with %d bytes that are not the original %d bytes (first difference at %d): fragments of different datagrams were mixed", fr.Key, len(got), sizes[fr.Key], firstDiff(got, original(fr.Key, sizes[fr.Key])))
+						}
+						mu.Unlock()
+					}
+					if (k+c)%3 == 0 {
+						runtime.Gosched()
+					}
+				}
+			}()
+		}
+		close(start)
+		wg.Wait()
+		for key := range sizes {
+			if delivered[key] < 1 && bad == "" {
+				bad = fmt.Sprintf("datagram %d was never handed up although each of its fragments arrived at least once", key)
+			}
+		}
+		run.Case(fw.Hash("stream", nd/4, g), true)
+		run.Count("concurrent_stream_scenarios", 1)
+		if bad != "" {
+			run.Violation("C08/api/concurrent-stream", bad, map[string]interface{}{"goroutines": g, "datagrams": nd})
+			if run.Violations() > 3 {
+				return
+			}
+		}
+	}
+}
+
 func TestC08(t *testing.T) {
 	log.SetOutput(io.Discard)
 	run = fw.Start("C08", "exploration")
@@ -481,6 +574,7 @@ func TestC08(t *testing.T) {
 		switch os.Getenv("VERIF_PHASE") {
 		case "concurrent":
 			concurrent()
+			concurrentStream()
 		case "vt":
 			vtPhase(t) // virtual-time clauses (go1.26.8 build only)
 		}
